@@ -1,8 +1,8 @@
 #!/bin/bash
 # usage: rf_one.sh Cxx N [prop]  : apply refactor N of Cxx in /tmp/rf/Cxx, run prop (default all) with expansion notes, leave applied
 export GOFLAGS=-mod=mod GOPROXY=off GOSUMDB=off GOTOOLCHAIN=local; unset GOWORK
-id=$1; n=$2; prop=${3:-all}; WT=/tmp/rf/$id
+id=$1; n=$2; prop=${3:-all}; WT=${RFBASE:-/tmp/rf}/$id
 git -C $WT checkout -q -- . ; git -C $WT clean -fdq
-git -C $WT apply /tmp/rf/out/$id/refactor_$n.diff || exit 1
+git -C $WT apply ${RFBASE:-/tmp/rf}/out/$id/refactor_$n.diff || exit 1
 mkdir -p /tmp/expdbg; rm -f /tmp/expdbg/*
 VERIF_EXPANSION_DEBUG=/tmp/expdbg /verif/bin/verifchk -repo $WT -prop $prop -evidence /tmp/ev_x -show-expansion 2>&1 | grep -v "^KNOWN\| 0 violations" | cut -c1-400
